@@ -113,6 +113,19 @@ func (v *Verifier) callCommon(s *State, c *ssa.CallCommon, fv *Value, args []*Va
 					}
 				}
 			}
+			if fv != nil && fv.L[0] != nil {
+				if rf, ok := v.resultFuncs[fv.L[0].id]; ok {
+					if fc := v.contracts.get(rf.key); fc != nil {
+						v.byContract[rf.key] = true
+						if sig, ok := under(fv.T).(*types.Signature); ok {
+							if rf.self != nil {
+								return v.applyFieldCallback(s, fc, sig, rf.self, args, pos, resultType(c), rf.key)
+							}
+							return v.applyContract(s, fc, sig, args, pos, resultType(c), rf.key)
+						}
+					}
+				}
+			}
 			if cb := v.callbackContract(s, c, fv); cb != nil {
 				return v.applyCallback(s, cb, c, args, pos)
 			}
@@ -474,7 +487,7 @@ func (v *Verifier) applyContractNamed(s *State, fc *FuncContract, sig *types.Sig
 		// they may refer to other objects allocated during the call)
 		v.havocFreshRegion(s, callee, pre.wm)
 	}
-	if callee := v.curCallee; !explicit && !fc.Pure && callee != nil && callee.Blocks != nil && isModulePkg(fnPkg(callee)) {
+	if callee := v.curCallee; !explicit && !fc.Pure && !fc.Trusted && callee != nil && callee.Blocks != nil && isModulePkg(fnPkg(callee)) {
 		// no modifies clause on a function whose body is known: everything its body (transitively) can write is unknown
 		v.havocBySummary(s, callee, "Hc!", true)
 	} else if !explicit && !fc.Pure {
@@ -523,6 +536,37 @@ func (v *Verifier) applyContractNamed(s *State, fc *FuncContract, sig *types.Sig
 						env[n] = res.sub(lo, hi, rs.At(k).Type())
 					}
 				}
+			}
+		}
+	}
+	// func-typed results of a call by contract: a later call of such a value is a call by the contract "<callee>#<result>"
+	// (e.g. the release function handed out with a cache entry)
+	if res != nil {
+		rs := sig.Results()
+		for k := 0; k < rs.Len(); k++ {
+			if _, isFn := under(rs.At(k).Type()).(*types.Signature); !isFn {
+				continue
+			}
+			rn := rs.At(k).Name()
+			if fc.ResultNames != nil && k < len(fc.ResultNames) {
+				rn = fc.ResultNames[k]
+			}
+			if rn == "" || rn == "_" {
+				rn = fmt.Sprintf("result%d", k)
+			}
+			lo := 0
+			if rs.Len() > 1 {
+				lo, _ = tupleRange(rs, k)
+			}
+			if lo < len(res.L) && res.L[lo] != nil {
+				if v.resultFuncs == nil {
+					v.resultFuncs = map[int]resultFn{}
+				}
+				rf := resultFn{key: name + "#" + rn}
+				if (sig.Recv() != nil || ifaceRecv) && len(args) > 0 {
+					rf.self = args[0]
+				}
+				v.resultFuncs[res.L[lo].id] = rf
 			}
 		}
 	}
